@@ -156,6 +156,77 @@ def body(ctx: Ctx, p: dict) -> None:
     ctx.case(p, nontrivial=bool(ties.any() and allnan_px.any() and regular.any()), classes=classes)
 
 
+# ---------------------------------------------------------------------------------------------------------------
+# pipeline twin: cost volumes as the real matching-cost / aggregation / confidence steps deliver them
+# ---------------------------------------------------------------------------------------------------------------
+@st.composite
+def pipeline_cases(draw):
+    from .. import gen
+
+    big = draw(st.integers(0, 5)) == 0
+    if big:
+        pair = draw(gen.image_pair(min_rows=99, max_rows=101, min_cols=100, max_cols=102, max_val=6, masks=True, tile_max=7))
+    else:
+        pair = draw(gen.image_pair(min_rows=6, max_rows=14, min_cols=8, max_cols=18, max_val=6, masks=True))
+    steps = draw(gen.legal_pipeline(validation="maybe", fill=False, refinement=False, filters=False, max_post=1))
+    a = draw(st.integers(-4, 1))
+    p = {"pair": pair, "pipeline": steps, "disp": [a, a + draw(st.integers(0, 5))]}
+    return p
+
+
+def pipeline_body(ctx: Ctx, p: dict) -> None:
+    from .. import drive, gen
+
+    kw = gen.pair_kwargs(p["pair"])
+    caps = {}
+
+    def before(machine, step, kind):
+        if kind == "disparity":
+            for side, cv in (("left", machine.left_cv), ("right", machine.right_cv)):
+                if cv is not None and "cost_volume" in cv:
+                    caps[side] = {"cv": cv["cost_volume"].data.copy(), "axis": cv.coords["disp"].data.copy(),
+                                  "type": cv.attrs["type_measure"], "mask": cv["validity_mask"].data.copy(),
+                                  "conf": cv["confidence_measure"].data.copy() if "confidence_measure" in cv else None}
+
+    def after(machine, step, kind):
+        if kind == "disparity":
+            for side, dsp, cv in (("left", machine.left_disparity, machine.left_cv), ("right", machine.right_disparity, machine.right_cv)):
+                if side in caps and "disparity_map" in dsp:
+                    caps[side]["d"] = dsp["disparity_map"].data.copy()
+                    caps[side]["m"] = dsp["validity_mask"].data.copy()
+                    caps[side]["cv_after"] = cv["cost_volume"].data.copy()
+                    caps[side]["conf_after"] = dsp["confidence_measure"].data.copy() if "confidence_measure" in dsp else None
+
+    steps = p["pipeline"]
+    drive.run_pipeline(pipeline=gen.pipe_dict(steps), disp=tuple(p["disp"]), spy=drive.Spy(before=before, after=after), **kw)
+    inv_cfg = next(c for n, c in steps if n == "disparity").get("invalid_disparity", -9999)
+    inv = math.nan if inv_cfg == "NaN" else float(inv_cfg)
+    ties = allnan = False
+    for side, c in caps.items():
+        if "d" not in c:
+            continue
+        exp, best = reference(c["cv"], c["axis"], c["type"], inv)
+        if not np.array_equal(c["d"], exp, equal_nan=True):
+            bad = np.argwhere(~((c["d"] == exp) | (np.isnan(c["d"]) & np.isnan(exp))))
+            r, cc = bad[0]
+            ctx.violation("C03/not-first-best-cost", f"{side} pixel {(int(r), int(cc))} got {c['d'][r, cc]} expected {exp[r, cc]} "
+                                                     f"costs={c['cv'][r, cc].tolist()} type={c['type']} pipeline={steps}")
+        if not np.array_equal(c["cv"], c["cv_after"], equal_nan=True):
+            ctx.violation("C03/cost-volume-modified", f"{side} pipeline={steps}")
+        if not np.array_equal(c["mask"], c["m"]):
+            ctx.violation("C03/validity-mask-altered", f"{side} pipeline={steps}")
+        if (c["conf"] is None) != (c["conf_after"] is None) or (c["conf"] is not None and not np.array_equal(c["conf"], c["conf_after"], equal_nan=True)):
+            ctx.violation("C03/confidence-bands-altered", f"{side} pipeline={steps}")
+        fin = ~np.isnan(c["cv"])
+        with np.errstate(invalid="ignore"):
+            ties = ties or bool((((c["cv"] == best[:, :, None]) & fin).sum(axis=2) >= 2).any())
+        allnan = allnan or bool((~fin.any(axis=2)).any())
+        ctx.judged += int(exp.size)
+    ctx.case(p, nontrivial=bool(ties and allnan), classes=(["crosses-block-boundary"] if p["pair"]["H"] >= 99 else []) +
+             (["right-side"] if "right" in caps and "d" in caps["right"] else []))
+
+
 CHECKS = [
-    Check("direct", body, strategy=cases, budget={"quick": (16, 150), "thorough": (16, 5000)}),
+    Check("direct", body, strategy=cases, budget={"quick": (12, 150), "thorough": (16, 5000)}),
+    Check("pipeline", pipeline_body, strategy=pipeline_cases, budget={"quick": (4, 25), "thorough": (16, 500)}),
 ]
